@@ -323,7 +323,11 @@ func genC17(p *pkgInfo, l *leanFile) {
 								flat(b.Y)
 								return
 							}
-							keyParts = append(keyParts, exprStr(e))
+							part := exprStr(e)
+							if a, ok := localAliases(fd)[part]; ok {
+								part = a // (the CA URL hoisted into a local is still the client's directory)
+							}
+							keyParts = append(keyParts, part)
 						}
 						flat(x.Rhs[0])
 					case "email":
